@@ -96,7 +96,7 @@ def strategy():
             if r['mode'] == 'xml' and draw(S._I10) < 6:
                 r['mut'] = []
                 r['status'] = (200, 'OK')
-        return {'ex': ex, 'obs': g_obs(draw)}
+        return {'ex': ex, 'obs': g_obs(draw), 'prelude': draw(S._B)}
     return strat()
 
 
@@ -168,15 +168,15 @@ def oracle(ctx, example):
     ex, obs = example['ex'], example['obs']
     with warnings.catch_warnings():
         warnings.simplefilter('ignore')
-        _oracle(ctx, ex, obs)
+        _oracle(ctx, ex, obs, example.get('prelude', False))
 
 
-def _oracle(ctx, ex, obs):
+def _oracle(ctx, ex, obs, prelude=False):
     creds = (USER, MARKER)
     # 1. bare run
     _reset_logging()
     out0, val0, ad0, bodies0, conn0 = c02.run_case(
-        ex, conn_kw={'creds': creds})
+        ex, conn_kw={'creds': creds}, prelude=prelude)
     base = _outcome_canon(out0, val0)
     # 2. observed run
     cap = Capture()
@@ -222,7 +222,7 @@ def _oracle(ctx, ex, obs):
             configure(True)
         try:
             out1, val1, ad1, bodies1, conn1 = c02.run_case(
-                ex, observers=observers,
+                ex, observers=observers, prelude=prelude,
                 conn_kw={'creds': creds, 'stats_enabled': obs['stats']})
         except Exception as exc:  # pylint: disable=broad-except
             # run_case itself catches everything raised by the operation;
@@ -269,10 +269,31 @@ def _oracle(ctx, ex, obs):
                 lpb = lp.encode('utf-8') if isinstance(lp, str) else lp
                 if lpb not in [b for b in bodies1 if b is not None]:
                     ctx.fail('last_raw_reply-differs', repr(lpb[:200]))
+        # an operation that got no reply (transport fault, HTTP error
+        # status) leaves no reply of an earlier operation behind: the
+        # properties are documented to be reset before the request is sent
+        n_main = len(ad1.requests) - (1 if prelude else 0)
+        if n_main >= 1 and out1 != 'local':
+            specs = ex['responses']
+            last_spec = specs[min(n_main - 1, len(specs) - 1)]
+            no_reply = n_main <= c02.MAX_REQ and (
+                last_spec['mode'] == 'fault' or last_spec['status'][0] != 200)
+            if no_reply and (conn1.last_raw_reply is not None or
+                             conn1.last_reply_len != 0):
+                ctx.fail('last_raw_reply-not-reset-for-operation-without-'
+                         'reply', 'last_raw_reply=%r last_reply_len=%r' %
+                         (str(conn1.last_raw_reply)[:80],
+                          conn1.last_reply_len))
         # statistics
         if obs['stats'] and out1 != 'local' and seen == base:
             op = ex['call']['op']
             snap = dict(conn1.statistics.snapshot())
+            if prelude:
+                pre = snap.get('EnumerateInstanceNames')
+                if op != 'EnumerateInstanceNames' and not op.startswith(
+                        'Iter') and (pre is None or pre.count != 1):
+                    ctx.fail('statistics:operation-not-counted-once',
+                             'prelude: %r' % (pre,))
             if op.startswith('Iter'):
                 from .xmlserver import request_method_name
                 sent = {}
@@ -287,7 +308,9 @@ def _oracle(ctx, ex, obs):
             else:
                 st_ = snap.get(op)
                 exp_exc = 0 if out1 == 'returned' else 1
-                if st_ is None or st_.count != 1:
+                want = 2 if (prelude and op == 'EnumerateInstanceNames') \
+                    else 1
+                if st_ is None or st_.count != want:
                     ctx.fail('statistics:operation-not-counted-once',
                              '%s: %r' % (op, st_))
                 elif st_.exception_count != exp_exc:
